@@ -2,6 +2,8 @@
 //! `--cfg trark_rssl_verif`) on generated inputs and prints line-protocol observations.
 //!
 //! usage: harness <property> [--tier quick|thorough] [--seed N] [--n N] [--requests FILE] [extra...]
+mod compile_util;
+mod progen;
 mod util;
 
 mod c01;
